@@ -226,6 +226,7 @@ class World:
         _roles._roles.clear()                     # a leak from one CASE into the next must not blur the cases
         _roles._roles.update(self._rst_roles)
         self.iso = None
+        self.iso_roles = []
         self.node_stubs = {}
         self.sig_now = None
         self.reports = []
@@ -1850,6 +1851,24 @@ def run_real_case(w: World, fmt: str, pt: int, x: int, doc: str, td: int, limit:
         raise
     except Exception:
         w.iso = None
+    # seeded C08-r6-1: a role a docstring DECLARES (`.. role:: name`) must be unknown again in the next docstring
+    w.iso_roles = []
+    if fmt in "rgn":
+        try:
+            from docutils.parsers.rst import roles as _r
+            from pydoctor.epydoc.markup import restructuredtext as R
+            for name in sorted(set(n.lower() for n in re.findall(r"^[ \t]*\.\. role:: *([A-Za-z][A-Za-z0-9_-]*)", doc, re.M))):
+                if name in w._rst_roles or name in getattr(_r, "_role_registry", {}):
+                    continue
+                errs: list = []
+                with quiet(), time_limit(limit):
+                    R.parse_docstring(":%s:`probe`" % name, errs)
+                if not any("nknown interpreted text role" in e.descr() for e in errs):
+                    w.iso_roles.append(name)
+        except Hang:
+            raise
+        except Exception:
+            pass
     return req, line, trace, rec
 
 
@@ -2036,6 +2055,10 @@ def real_oracle(ctx: Ctx, w: World, fmt: str, pt: int, x: int, doc: str, td: int
     if w.iso is not None and w.iso[0] != w.iso[1]:
         fail("isolation:failed-parse-leaks-into-next-docstring", "after this docstring was processed, another object's docstring (parsed afresh) "
              "is rendered differently than before: docutils' role registry (default-role) is not restored when the parse fails")
+    if getattr(w, "iso_roles", None):
+        fail("isolation:role-declared-in-one-docstring-known-in-the-next", "this docstring declares the role(s) %s with `.. role::`; a docstring parsed "
+             "afterwards that uses `:%s:` without declaring it is no longer told 'Unknown interpreted text role': how it is read (and whether its "
+             "problem is reported) depends on another object's docstring" % (", ".join(w.iso_roles), w.iso_roles[0]))
     # section anchors: pairwise distinct in the body, and every link of the table of contents leads to one of them
     lastd = next((t for t in reversed(shown) if t["flat_err"] is None and not t["body"].startswith("pre:")), None)
     lastt = next((t for t in reversed(trace) if t["op"] == "t" and t["obj"] == x and t["stan"] is not None and not t["flat_err"]), None)
